@@ -113,6 +113,12 @@ ExtendFold(nd, es, st, l) ==
 MapExtend(l) == LET r == ExtendFold(Live, E, stamp, l) IN
                 /\ nodes' = [x \in r[1] |-> x] /\ E' = r[2] /\ stamp' = r[3] /\ ret' = <<"s", "ok">> /\ Same2
 
+\* GraphMap::from_graph / Deserialize for GraphMap (its wire format is a Graph): node weights become the keys (equal
+\* weights collapse into one node), every edge is an add_edge in stream order (a repeated key pair keeps one edge, last
+\* weight wins), whatever was in the map before is gone
+MapLoad(ns, l) == LET r == ExtendFold({ns[i] : i \in DOMAIN ns}, {}, stamp, l) IN
+                  /\ nodes' = [x \in r[1] |-> x] /\ E' = r[2] /\ stamp' = r[3] /\ ret' = <<"s", "ok">> /\ Same2
+
 --------------------------------------------------------------------------
 \* ---- MatrixGraph
 \* add_node returns some id that is not live (which one is not specified: the logged id is the parameter)
